@@ -53,4 +53,4 @@ EXPLORE = {'sim': (sim_cases(), execute_sim), 'real': (rp.c09_cases(), rp.execut
 def run(ctx):
     ctx.explore('sim', sim_cases(), execute_sim, n=ctx.pick(250, 25000))
     ctx.explore('real', rp.c09_cases(), rp.execute_c09, n=ctx.pick(2, 30),
-                shrink_budget=6)
+                shrink_budget=6, reexecute_confirm=2)
